@@ -14,6 +14,7 @@ use cipher::{
 use std::io::{BufRead, Write};
 use std::panic::{AssertUnwindSafe, catch_unwind};
 
+#[macro_use]
 mod special;
 mod zero;
 
@@ -30,6 +31,13 @@ pub mod hazmat {
 #[path = "/repo/aes/src/soft/fixslice32.rs"]
 mod fixslice32;
 mod fs32;
+
+// Kuznyechik NEON backend (`/repo/kuznyechik/src/neon/*.rs`, `core::arch::aarch64`): not compilable natively on this
+// host.  `build.rs` (`build_neon.rs::shadow_kuz_neon`) regenerates `kuz_neon_shadow.rs` from the repository's current
+// text at every build, with the intrinsics replaced by the software implementations of `arm_sw_neon.rs` — DESIGN §4.4.
+pub mod arm_sw_neon;
+include!(concat!(env!("OUT_DIR"), "/kuz_neon_shadow.rs"));
+mod neon_kuz;
 
 /// Allocator that paints fresh blocks with 0xCD and freed blocks with 0xDD, so that a partially initialised
 /// value moved to the heap cannot be completed by the stale contents of an earlier instance with the same key.
@@ -309,6 +317,7 @@ clone_yes!(
     Rc5_32_255_255, Rc5_8_12_4, Rc5_8_3_1, Rc5_16_16_8, Rc5_16_5_3, Rc5_64_24_24, Rc5_64_7_17,
     Rc5_128_28_32, Rc5_128_9_33, Rc5_32_12_0,
     special::Gost89User,
+    neon_kuz::NeonKuznyechik, neon_kuz::NeonKuznyechikEnc, neon_kuz::NeonKuznyechikDec,
 );
 clone_no!(xtea::Xtea);
 impl MaybeDebug for xtea::Xtea {
@@ -316,6 +325,11 @@ impl MaybeDebug for xtea::Xtea {
         format!("{:?}", self)
     }
 }
+// ARMv8 AES backend of /repo run through software intrinsics (shadow build, see build.rs / armv8sh.rs); declared here
+// because it uses the `entry!` / `clone_yes!` macros above and the route macros of `special`.
+pub mod arm_sw;
+mod armv8sh;
+
 // BeltBlock has no Debug impl
 impl MaybeClone for belt_block::BeltBlock {
     fn mclone(&self) -> Option<Self> {
@@ -329,6 +343,12 @@ impl MaybeDebug for belt_block::BeltBlock {
 }
 
 pub fn registry() -> Vec<Entry> {
+    let mut reg = registry_real();
+    reg.extend(armv8sh::entries());
+    reg
+}
+
+fn registry_real() -> Vec<Entry> {
     vec![
         entry!("Aes128", aes::Aes128, Full, "ed"),
         entry!("Aes192", aes::Aes192, Full, "ed"),
@@ -402,6 +422,9 @@ pub fn registry() -> Vec<Entry> {
         entry!("Rc5_128_28_32", Rc5_128_28_32, Full, "ed"),
         entry!("Rc5_128_9_33", Rc5_128_9_33, Full, "ed"),
         entry!("Rc5_32_12_0", Rc5_32_12_0, Full, "ed"),
+        entry!("NeonKuznyechik", neon_kuz::NeonKuznyechik, Full, "ed"),
+        entry!("NeonKuznyechikEnc", neon_kuz::NeonKuznyechikEnc, EncOnly, "e"),
+        entry!("NeonKuznyechikDec", neon_kuz::NeonKuznyechikDec, DecOnly, "d"),
     ]
 }
 
@@ -461,10 +484,16 @@ fn exec(reg: &[Entry], line: &str) -> String {
     if t.is_empty() {
         return "bad-op".into();
     }
+    if let Some(r) = armv8sh::exec(&t) {
+        return r;
+    }
     if let Some(r) = special::exec(&t) {
         return r;
     }
     if let Some(r) = fs32::exec(&t) {
+        return r;
+    }
+    if let Some(r) = neon_kuz::exec(&t) {
         return r;
     }
     if t[0] == "hist" {
